@@ -14,7 +14,7 @@ E4 = "E4 schedule/fault enumerator"
 CHECKS = {
     "C01": dict(engine=E1, cat="exploration", ref="§4 C01",
                 technique="exhaustive small-scope enumeration of cost tables x switching costs against brute force over all K^T sequences (interpreted and JIT kernel)",
-                text="Every cost table over small integer alphabets ({0,1,3}, {-2,0,3}, {0,1,1e15}) up to T*K<=8 (+5x2; thorough T*K<=12) x every switching cost in the menu (scalars incl. 0.5 in three numeric types, every vector over {0,2}^T and {0,1,5}^T), float64 C/F-ordered and int64/float32/int32 tables, through the real kernel interpreted and JIT-compiled, compared exactly with brute force over all K^T sequences; a one-hot family up to T=10 (thorough 14) against a forward DP; and call sequences with the same K and varying T in one process. Bounded-exhaustive: complete below the bound, silent above it.",
+                text="Every cost table over small integer alphabets ({0,1,3}, {-2,0,3}, {0,1,1e14}) up to T*K<=8 (+5x2; thorough T*K<=12) x every switching cost in the menu (scalars incl. 0.5 in three numeric types, every vector over {0,2}^T and {0,1,5}^T), float64 C/F-ordered and int64/float32/int32 tables, through the real kernel interpreted and JIT-compiled, compared exactly with brute force over all K^T sequences; a one-hot family up to T=10 (thorough 14) against a forward DP; and call sequences with the same K and varying T in one process. Bounded-exhaustive: complete below the bound, silent above it.",
                 note="trusted: NumPy integer-valued float arithmetic is exact; the brute-force oracle; inputs above the size bound and non-integer costs are not covered here (C09/C07 cover real-valued tables by objective comparison)"),
     "C09": dict(engine=E2, cat="model_checking", ref="§3.2, §4 C09",
                 technique="explicit-state model of the main loop (fresh-state transition table) + conformance replay of every trace against the real fit_stacked_data under scripted initial labelling / donor draw / pool",
